@@ -20,6 +20,7 @@ LEVEL_TEXT = (
     "directions) and compared cell by cell with a reference mapping in exact rationals; independently every "
     "CvtToFuzzy variant is compared with clamp(Normalize variant on [-1,+1]), CvtFromFuzzy is checked to invert "
     "CvtToFuzzy between the thresholds, and monotone mappings must preserve the order of cells. Sampled, not exhaustive."
+    ' Value pools that a tolerant comparison would conflate (250001/250002, 1/1.000001) and a whole-model part are included.'
 )
 LEVEL_NOTE = (
     "The property text counts 17 commands; the tree has 14 conversion/normalisation classes. NormalizeZScore with omitted "
